@@ -94,6 +94,8 @@ mod native {
         configs.push((16384, vec![10000, 20000, 0, 5000]));
         configs.push((16384, vec![8193, 16384, 1]));
         configs.push((32768, vec![9000, 40000, 100]));
+        // a piece length above the client's own default for created torrents (256 KiB): the torrent's number counts
+        configs.push((300_000, vec![100, 700_000, 5]));
         {
             {
                 for (pl, ls) in configs {
@@ -171,7 +173,9 @@ mod native {
                 let paths: Vec<String> = vec!["a".into(), "../e1".into(), "../../e2".into(), "d/../../e3".into(), format!("{}/abs_evil", base_probe),
                                               "..\\..\\e4".into(), "./ok".into(), "d/f".into(), "../dl/../e5".into(),
                                               // patterns that survive a naive "remove ../" / "strip leading /" / "count the depth" sanitiser
-                                              "....//e6".into(), "..././e7".into(), "/....//e8".into(), "./../e9".into(), "./../../e10".into(), "..//..//e11".into()];
+                                              "....//e6".into(), "..././e7".into(), "/....//e8".into(), "./../e9".into(), "./../../e10".into(), "..//..//e11".into(),
+                                              // siblings whose first component merely STARTS with the torrent's name
+                                              format!("{}-evil/x", name), format!("{}.sh", name), format!("{}/../{}x/y", name, name)];
                 for p in paths.iter() {
                     let base = fresh_dir("c04");
                     let content = vec![1u8, 2, 3, 4, 5, 6];
@@ -204,6 +208,6 @@ mod native {
                 }
             }
         }
-        assert!(cases == 120);   // x 2 lengths of the hostile entry each
+        assert!(cases == 144);   // x 2 lengths of the hostile entry each
     }
 }
